@@ -74,6 +74,16 @@ def stubset(name, pairs):
     STUBS[name] = pairs
 
 
+stubset('vec_resize', [('std::vec::Vec::resize', 'stubs::vec_resize_nogrow')])
+stubset('vec_push', [('std::vec::Vec::push', 'stubs::vec_push_nogrow')])
+stubset('vec_reserve', [('std::vec::Vec::reserve', 'stubs::vec_reserve_nogrow')])
+
+
+stubset('rawvec_fixed', [('simple_sds::raw_vector::RawVector::with_capacity', 'stubs::rawvec_with_capacity_fixed'),
+                         ('simple_sds::raw_vector::RawVector::new', 'stubs::rawvec_new_fixed')])
+stubset('rawvec_reserve', [('simple_sds::raw_vector::RawVector::reserve', 'stubs::rawvec_reserve_fixed')])
+
+
 def expand_stubs(names):
     out = []
     for n in names:
@@ -92,6 +102,6 @@ def all_instances():
     global _loaded
     if not _loaded:
         _loaded = True
-        for m in ('c17',):
+        for m in ('c17', 'c05'):
             importlib.import_module('kvlib.props.' + m)
     return _INSTANCES
